@@ -64,10 +64,16 @@ Parts(L) == LET W == Words[L] IN
 AsbCases(L) == LET P == Parts(L) S == StrongSep[L] n == Len(P) IN
    [j \in 1..Params.cases |->
       LET x == Start(Seed, 77 + Len(L), j)
-          a == P[((x \div 16) % n) + 1]  b == P[((Lcg(x) \div 16) % n) + 1]  s == S[(j % Len(S)) + 1]
+          F == AmbigParts[L]  fam == j % 4 = 0        \* one case in four: both parts from the inflection / ambiguity families
+          a == IF fam THEN F[((x \div 16) % Len(F)) + 1] ELSE P[((x \div 16) % n) + 1]
+          b == IF fam THEN F[((Lcg(x) \div 16) % Len(F)) + 1] ELSE P[((Lcg(x) \div 16) % n) + 1]
+          s == S[(j % Len(S)) + 1]
       IN <<a \o s \o b, a, b, s>>]
 
-Req(L, n, texts, extra) == [i |-> n, lang |-> L, texts |-> texts, thrs |-> Params.thrs, want |-> Params.want, kind |-> Kind, extra |-> extra]
+\* every text of a case runs on its own, newly created interpreter: the parts A and B are reference results that the
+\* run on A S B cannot have influenced
+Req(L, n, texts, extra) == [i |-> n, lang |-> L, texts |-> texts, thrs |-> Params.thrs, want |-> Params.want, kind |-> Kind, extra |-> extra,
+                            fresh_each |-> Kind = "asb"]
 
 ForLang(L, base) ==
   IF Kind = "case" THEN LET B == BaseTexts(L) IN [j \in 1..Len(B) |-> Req(L, base + j, CaseVariants(B[j]), "")]
